@@ -136,10 +136,12 @@ def sort_of(ty):
     elif k == 'dict':
         d = z3.Datatype(mangle(ty))
         ks, vs = sort_of(ty[1]), sort_of(ty[2])
+        # keys: insertion order; has: membership (quantifier-free select/store reasoning); map: values
         d.declare('mk_' + mangle(ty), ('%s_keys' % mangle(ty), z3.SeqSort(ks)),
+                  ('%s_has' % mangle(ty), z3.ArraySort(ks, z3.BoolSort())),
                   ('%s_map' % mangle(ty), z3.ArraySort(ks, vs)))
         s = d.create()
-        _dt_info[ty] = dict(mk=s.constructor(0), keys=s.accessor(0, 0), map=s.accessor(0, 1))
+        _dt_info[ty] = dict(mk=s.constructor(0), keys=s.accessor(0, 0), has=s.accessor(0, 1), map=s.accessor(0, 2))
     elif k == 'gen':
         argt = ('tuple', tuple(ty[2]))
         s = sort_of(argt)
@@ -347,7 +349,7 @@ def empty_dict(ty):
     i = info(ty)
     ks, vs = sort_of(ty[1]), sort_of(ty[2])
     dflt = z3.FreshConst(vs, 'dflt')
-    return V(ty, i['mk'](z3.Empty(z3.SeqSort(ks)), z3.K(ks, dflt)))
+    return V(ty, i['mk'](z3.Empty(z3.SeqSort(ks)), z3.K(ks, z3.BoolVal(False)), z3.K(ks, dflt)))
 
 
 def dict_keys(v):
@@ -356,6 +358,10 @@ def dict_keys(v):
 
 def dict_map(v):
     return _acc(info(v.ty)['map'], v.t)
+
+
+def dict_has(v):
+    return _acc(info(v.ty)['has'], v.t)
 
 
 def fresh(ty, name):
